@@ -9,7 +9,9 @@
 (* <<form, shape, shape>> with form in Forms.  Enumerated: every            *)
 (*   top(x, y), top in {fork, switch (first case break), switchf (first    *)
 (*   case fallthrough)}, x, y shapes of depth <= Depth  (Mode "full"), or   *)
-(*   one of x, y a shape of depth <= Depth and the other a leaf ("side").   *)
+(*   one of x, y a shape of depth <= Depth and the other a leaf ("side");   *)
+(*   plus, in both modes, every multi / tap-hold / tap-dance with a fork /  *)
+(*   switch of depth <= Depth as one member and a leaf as the other.        *)
 (* Leaves are numbered in pre-order: leaf i is the key KeyCodes[i] or the   *)
 (* placeholder of its own chord group g<i> whose chord outputs OutCodes[i]; *)
 (* the first placeholder's group has a second key on the physical key ck.   *)
@@ -54,10 +56,14 @@ ShapeTxt(sh) == IF Len(sh) = 1 THEN sh[1] ELSE sh[1] \o "(" \o ShapeTxt(sh[2]) \
 EnvOf(ks) == [keys |-> ks, coords |-> <<>>, hk |-> <<>>, hi |-> <<>>, layers |-> <<0>>, dl |-> 0]
 Envs4 == <<EnvOf(<<>>), EnvOf(<<TrigKeys[1]>>), EnvOf(<<TrigKeys[2]>>), EnvOf(<<TrigKeys[1], TrigKeys[2]>>)>>
 
+\* a fork / switch wrapped in one of the other forms (the other member a leaf)
+IsFS(sh) == Len(sh) = 3 /\ sh[1] \in Tops
+Wrapped == {<<f, x, y>> : f \in Forms \ Tops, x \in {s \in Shapes(Depth) : IsFS(s)}, y \in LeafShapes}
+           \cup {<<f, x, y>> : f \in Forms \ Tops, x \in LeafShapes, y \in {s \in Shapes(Depth) : IsFS(s)}}
 TopShapes ==
-  IF TMode = "full" THEN {<<f, x, y>> : f \in Tops, x \in Shapes(Depth), y \in Shapes(Depth)}
+  IF TMode = "full" THEN {<<f, x, y>> : f \in Tops, x \in Shapes(Depth), y \in Shapes(Depth)} \cup Wrapped
   ELSE {<<f, x, y>> : f \in Tops, x \in Shapes(Depth), y \in LeafShapes}
-       \cup {<<f, x, y>> : f \in Tops, x \in LeafShapes, y \in Shapes(Depth)}
+       \cup {<<f, x, y>> : f \in Tops, x \in LeafShapes, y \in Shapes(Depth)} \cup Wrapped
 
 VARIABLES st
 Init == st \in TopShapes
